@@ -897,7 +897,10 @@ func (ls *LanceroSource) distributeData(buffersMsg BuffersChanType) *dataBlock {
 	// Then we record the "rowcounts", where rowcount = nrow*framecount+row
 	// external trigger search must occur before Mix, since mix alters FB in place
 	externalTriggerRowcounts := make([]int64, 0)
-	nrows := ls.devices[0].nrows
+	// The rows are those of the active card whose first column is scanned below (the first active one):
+	// the device table need not contain a card number 0, and a card 0 that is not active has the row
+	// count of some earlier run, or none.
+	nrows := ls.active[0].nrows
 	for frame := 0; frame < framesUsed; frame++ { // frame within this block, need to add ls.nextFrameNum for consistent timing across blocks
 		for row := 0; row < nrows; row++ { // search the first column for frame bit level triggers
 			// datacopies is still in readout order (r0c0, r0c1, ..., r1c0, ...): look up where the feedback
